@@ -1554,4 +1554,40 @@ theorem ex_reachable : Reachable exCtx exInit ∧ Reachable exCtx exHeld ∧ Rea
   have h1 : Reachable exCtx exHeld := .getItem _ (.getItem _ h0)
   exact ⟨h0, h1, .delItem _ h1⟩
 
+/-! ## Clark notation of names given as strings -/
+
+theorem split_at_brace (a l : List Char) (h : '}' ∉ a) :
+    (a ++ '}' :: l).takeWhile (· != '}') = a ∧ (a ++ '}' :: l).dropWhile (· != '}') = '}' :: l := by
+  induction a with
+  | nil => simp
+  | cons c cs ih =>
+    have hc : c ≠ '}' := fun e => h (e ▸ List.mem_cons_self)
+    have hcs : '}' ∉ cs := fun m => h (List.mem_cons_of_mem _ m)
+    obtain ⟨h1, h2⟩ := ih hcs
+    simp [hc, h1, h2]
+
+theorem deconstructClark_clark (ns l : String) (h : '}' ∉ ns.toList) :
+    deconstructClark ("{" ++ ns ++ "}" ++ l) = some (some ns, l) := by
+  unfold deconstructClark
+  have e : ("{" ++ ns ++ "}" ++ l).toList = '{' :: (ns.toList ++ '}' :: l.toList) := by
+    simp [String.toList_append]
+  rw [e]
+  obtain ⟨h1, h2⟩ := split_at_brace ns.toList l.toList h
+  simp only [h1, h2]
+  simp
+
+theorem deconstructClark_plain (n : String) (h : n.toList.head? ≠ some '{') :
+    deconstructClark n = some (none, n) := by
+  unfold deconstructClark
+  cases hn : n.toList with
+  | nil => rfl
+  | cons c cs =>
+    have hc : c ≠ '{' := by
+      intro e; apply h; rw [hn, e]; rfl
+    split
+    · rename_i rest heq
+      cases heq
+      exact absurd rfl hc
+    · rfl
+
 end Delb.Attrs
